@@ -128,106 +128,119 @@ Section ProtoProofs.
   Qed.
 
   (* ------------------------------------------------------------ version_never_ahead: the monitor accepts every log *)
-  Definition Link (d : db) (app : stream -> nat) : Prop := forall k, d_vers d k <= app k.
+  (* what is recorded never exceeds the database's version, which never exceeds what was applied *)
+  Definition Link (d : db) (m : mst) : Prop := forall k, m_rec m k <= d_vers d k /\ d_vers d k <= m_app m k.
 
-  Lemma mon_run_app app l1 l2 :
-    mon_run app (l1 ++ l2) = match mon_run app l1 with Some a => mon_run a l2 | None => None end.
-  Proof. revert app; induction l1 as [|e l1 IH]; intros app; cbn; [reflexivity|]. destruct (mon_step app e); auto. Qed.
+  Lemma mon_run_app m l1 l2 :
+    mon_run m (l1 ++ l2) = match mon_run m l1 with Some a => mon_run a l2 | None => None end.
+  Proof. revert m; induction l1 as [|e l1 IH]; intros m; cbn; [reflexivity|]. destruct (mon_step m e); auto. Qed.
 
-  Lemma mon_run_no_scripts app l : no_scripts l -> mon_run app l = Some app.
+  Lemma mon_run_no_scripts m l : no_scripts l -> mon_run m l = Some m.
   Proof.
     unfold no_scripts. induction l as [|e l IH]; cbn; [reflexivity|].
     destruct e; cbn; try discriminate; auto.
   Qed.
 
-  Definition bump (app : stream -> nat) (k : stream) (i : nat) : stream -> nat :=
-    fun k' => if stream_eqb k' k then Nat.max (app k') (S i) else app k'.
+  Definition bump_app (m : mst) (k : stream) (i : nat) : mst :=
+    {| m_app := fun k' => if stream_eqb k' k then Nat.max (m_app m k') (S i) else m_app m k'; m_rec := m_rec m |}.
+  Definition bump_rec (m : mst) (k : stream) (v : nat) : mst :=
+    {| m_app := m_app m; m_rec := fun k' => if stream_eqb k' k then Nat.max (m_rec m k') v else m_rec m k' |}.
 
-  Lemma mon_script app k i r : i <= app k ->
-    mon_step app (EScript k i r) = Some (if res_applied r then bump app k i else app).
-  Proof. intros H. cbn. apply Nat.leb_le in H. rewrite H. destruct (res_applied r); reflexivity. Qed.
-  Lemma mon_ins app k v r : v <= app k -> mon_step app (EInsVer k v r) = Some app.
-  Proof. intros H. cbn. apply Nat.leb_le in H. rewrite H. destruct (res_applied r); reflexivity. Qed.
-
-  Lemma loop_mon k : forall todo os (d : db) app, Link d app ->
-    exists app', mon_run app (r_log (loop k todo (d_vers d k) os d)) = Some app' /\
-                 Link (r_db (loop k todo (d_vers d k) os d)) app'.
+  Lemma mon_script m k i r : m_rec m k <= i -> i <= m_app m k ->
+    mon_step m (EScript k i r) = Some (if res_applied r then bump_app m k i else m).
   Proof.
-    induction todo as [|x todo IH]; intros os d app HL; cbn [Migrate.loop].
+    intros H1 H2. cbn. apply Nat.leb_le in H1, H2. rewrite H1, H2. destruct (res_applied r); reflexivity.
+  Qed.
+  Lemma mon_ins m k v r : v <= m_app m k ->
+    mon_step m (EInsVer k v r) = Some (if res_applied r then bump_rec m k v else m).
+  Proof. intros H. cbn. apply Nat.leb_le in H. rewrite H. destruct (res_applied r); reflexivity. Qed.
+
+  Lemma loop_mon k : forall todo os (d : db) m, Link d m ->
+    exists m', mon_run m (r_log (loop k todo (d_vers d k) os d)) = Some m' /\
+               Link (r_db (loop k todo (d_vers d k) os d)) m'.
+  Proof.
+    induction todo as [|x todo IH]; intros os d m HL; cbn [Migrate.loop].
     - cbn. eauto.
     - destruct (do_call (o_hd os) (eff_script x) d) as [d1 r1] eqn:E1.
-      set (app1 := if res_applied r1 then bump app k (d_vers d k) else app).
-      assert (Hle : d_vers d k <= app k) by apply HL.
+      set (m1 := if res_applied r1 then bump_app m k (d_vers d k) else m).
+      destruct (HL k) as [Hrec Hle].
       assert (Hv1 : d_vers d1 = d_vers d).
       { destruct (do_call_inv _ _ _ _ _ E1) as [[_ He]|[[_ He]|[_ ->]]]; [| |reflexivity];
           apply eff_script_inv in He; destruct He as (c' & _ & _ & Hv & _); exact Hv. }
-      assert (HL1 : Link d1 app1).
-      { intros k'. rewrite Hv1. unfold app1, bump. specialize (HL k').
-        destruct (res_applied r1); [destruct (stream_eqb k' k); lia|exact HL]. }
+      assert (HL1 : Link d1 m1).
+      { intros k'. rewrite Hv1. destruct (HL k') as [Ha Hb]. unfold m1, bump_app.
+        destruct (res_applied r1); cbn [m_app m_rec]; [|auto]. split; [exact Ha|]. destruct (stream_eqb k' k); lia. }
       destruct (res_ok r1) eqn:R1.
       + pose proof (res_ok_applied _ R1) as A1.
         destruct (do_call (o_hd (tl os)) (eff_setver k (S (d_vers d k))) d1) as [d2 r2] eqn:E2.
-        assert (Happ1k : S (d_vers d k) <= app1 k).
-        { unfold app1, bump. rewrite A1, stream_eqb_refl. lia. }
-        assert (HL2 : Link d2 app1).
-        { destruct (do_call_inv _ _ _ _ _ E2) as [[_ He]|[[_ He]|[_ ->]]]; [| |exact HL1];
-            apply eff_setver_inv in He; destruct He as (_ & _ & _ & Hk & Hoth);
-            intros k'; (destruct (stream_eqb k' k) eqn:Ek;
-              [apply stream_eqb_eq in Ek; subst k'; rewrite Hk, Hv1; lia
-              |rewrite Hoth; [apply HL1|intros ->; rewrite stream_eqb_refl in Ek; discriminate]]). }
+        assert (Happ1k : S (d_vers d k) <= m_app m1 k).
+        { unfold m1, bump_app. rewrite A1. cbn [m_app]. rewrite stream_eqb_refl. lia. }
+        assert (Hrec1k : m_rec m1 k <= d_vers d k) by (unfold m1, bump_app; destruct (res_applied r1); exact Hrec).
+        set (m2 := if res_applied r2 then bump_rec m1 k (S (d_vers d k)) else m1).
+        assert (HL2 : Link d2 m2 /\ (res_ok r2 = true -> d_vers d2 k = S (d_vers d k))).
+        { assert (Hap : forall d', eff_setver k (S (d_vers d k)) d1 = Some d' -> Link d' (bump_rec m1 k (S (d_vers d k))) /\ d_vers d' k = S (d_vers d k)).
+          { intros d' He. apply eff_setver_inv in He. destruct He as (_ & _ & _ & Hk & Hoth).
+            assert (Hk' : d_vers d' k = S (d_vers d k)) by (rewrite Hk, Hv1; lia).
+            split; [|exact Hk']. intros k'. unfold bump_rec. cbn [m_app m_rec].
+            destruct (stream_eqb k' k) eqn:Ek.
+            - apply stream_eqb_eq in Ek. subst k'. rewrite Hk'. lia.
+            - rewrite Hoth; [apply HL1|intros ->; rewrite stream_eqb_refl in Ek; discriminate]. }
+          unfold m2. destruct (do_call_inv _ _ _ _ _ E2) as [[-> He]|[[-> He]|[Hn ->]]]; cbn [res_applied res_ok].
+          - destruct (Hap _ He). auto.
+          - destruct (Hap _ He). split; [assumption|discriminate].
+          - rewrite Hn. split; [exact HL1|]. intros Hok. rewrite (res_ok_applied _ Hok) in Hn. discriminate. }
+        destruct HL2 as [HL2 Hd2k].
         destruct (res_ok r2) eqn:R2.
-        * assert (Hd2k : d_vers d2 k = S (d_vers d k)).
-          { destruct (do_call_inv _ _ _ _ _ E2) as [[_ He]|[[-> _]|[Hn _]]]; [|discriminate|].
-            - apply eff_setver_inv in He. destruct He as (_ & _ & _ & Hk & _). rewrite Hk, Hv1. lia.
-            - rewrite (res_ok_applied _ R2) in Hn. discriminate. }
-          destruct (IH (tl (tl os)) d2 app1 HL2) as (app' & Hm & HL'). rewrite Hd2k in Hm, HL'.
-          cbn [r_log r_db Migrate.mon_run]. rewrite (mon_script _ _ _ _ Hle). fold app1.
-          rewrite (mon_ins _ _ _ _ Happ1k). eauto.
-        * cbn [r_log r_db Migrate.mon_run]. rewrite (mon_script _ _ _ _ Hle). fold app1.
-          rewrite (mon_ins _ _ _ _ Happ1k). eauto.
-      + cbn [r_log r_db Migrate.mon_run]. rewrite (mon_script _ _ _ _ Hle). fold app1. eauto.
+        * specialize (Hd2k eq_refl).
+          destruct (IH (tl (tl os)) d2 m2 HL2) as (m' & Hm & HL'). rewrite Hd2k in Hm, HL'.
+          cbn [r_log r_db Migrate.mon_run]. rewrite (mon_script _ _ _ _ Hrec Hle). fold m1.
+          rewrite (mon_ins _ _ _ _ Happ1k). fold m2. eauto.
+        * cbn [r_log r_db Migrate.mon_run]. rewrite (mon_script _ _ _ _ Hrec Hle). fold m1.
+          rewrite (mon_ins _ _ _ _ Happ1k). fold m2. eauto.
+      + cbn [r_log r_db Migrate.mon_run]. rewrite (mon_script _ _ _ _ Hrec Hle). fold m1. eauto.
   Qed.
 
-  Lemma us_mon c k os (d : db) app : Link d app ->
-    exists app', mon_run app (r_log (us c k os d)) = Some app' /\ Link (r_db (us c k os d)) app'.
+  Lemma us_mon c k os (d : db) m : Link d m ->
+    exists m', mon_run m (r_log (us c k os d)) = Some m' /\ Link (r_db (us c k os d)) m'.
   Proof.
     intros HL. unfold Migrate.us.
     destruct (prelude_props c k os d) as (Hc & Hv & _ & _ & Hns & _).
     set (p := prelude c k os d) in *.
-    assert (HLp : Link (r_db p) app) by (intros k'; rewrite Hv; apply HL).
+    assert (HLp : Link (r_db p) m) by (intros k'; rewrite Hv; apply HL).
     destruct (r_ok p).
-    - destruct (loop_mon k (skipn (d_vers (r_db p) k) (scripts k)) (r_os p) (r_db p) app HLp) as (app' & Hm & HL').
+    - destruct (loop_mon k (skipn (d_vers (r_db p) k) (scripts k)) (r_os p) (r_db p) m HLp) as (m' & Hm & HL').
       cbn [r_log r_db]. rewrite mon_run_app, (mon_run_no_scripts _ _ Hns). eauto.
     - rewrite (mon_run_no_scripts _ _ Hns). eauto.
   Qed.
 
-  Lemma run_streams_mon c : forall ks os (d : db) app, Link d app ->
-    exists app', mon_run app (r_log (run_streams c ks os d)) = Some app' /\ Link (r_db (run_streams c ks os d)) app'.
+  Lemma run_streams_mon c : forall ks os (d : db) m, Link d m ->
+    exists m', mon_run m (r_log (run_streams c ks os d)) = Some m' /\ Link (r_db (run_streams c ks os d)) m'.
   Proof.
-    induction ks as [|k ks IH]; intros os d app HL; cbn [Migrate.run_streams].
+    induction ks as [|k ks IH]; intros os d m HL; cbn [Migrate.run_streams].
     - cbn. eauto.
-    - destruct (us_mon c k os d app HL) as (app1 & Hm1 & HL1).
+    - destruct (us_mon c k os d m HL) as (m1 & Hm1 & HL1).
       destruct (r_ok (us c k os d)).
-      + destruct (IH (r_os (us c k os d)) (r_db (us c k os d)) app1 HL1) as (app2 & Hm2 & HL2).
+      + destruct (IH (r_os (us c k os d)) (r_db (us c k os d)) m1 HL1) as (m2 & Hm2 & HL2).
         cbn [r_log r_db]. rewrite mon_run_app, Hm1. eauto.
       + eauto.
   Qed.
 
-  Lemma multi_run_mon c : forall runs (d : db) app, Link d app ->
-    exists app', mon_run app (snd (multi_run c runs d)) = Some app' /\ Link (fst (multi_run c runs d)) app'.
+  Lemma multi_run_mon c : forall runs (d : db) m, Link d m ->
+    exists m', mon_run m (snd (multi_run c runs d)) = Some m' /\ Link (fst (multi_run c runs d)) m'.
   Proof.
-    induction runs as [|os runs IH]; intros d app HL; cbn [Migrate.multi_run].
+    induction runs as [|os runs IH]; intros d m HL; cbn [Migrate.multi_run].
     - cbn. eauto.
-    - destruct (run_streams_mon c (streams_of c) os d app HL) as (app1 & Hm1 & HL1).
+    - destruct (run_streams_mon c (streams_of c) os d m HL) as (m1 & Hm1 & HL1).
       fold (update c os d) in Hm1, HL1.
-      destruct (IH (r_db (update c os d)) app1 HL1) as (app2 & Hm2 & HL2).
+      destruct (IH (r_db (update c os d)) m1 HL1) as (m2 & Hm2 & HL2).
       destruct (multi_run c runs (r_db (update c os d))) as [d' l]. cbn [fst snd] in *.
       rewrite mon_run_app, Hm1. eauto.
   Qed.
 
   Theorem never_ahead c runs c0 :
-    exists app, mon_run (fun _ => 0) (snd (multi_run c runs (db0 cat c0))) = Some app /\
-                forall k, d_vers (fst (multi_run c runs (db0 cat c0))) k <= app k.
+    exists m, mon_run mst0 (snd (multi_run c runs (db0 cat c0))) = Some m /\
+              forall k, m_rec m k <= d_vers (fst (multi_run c runs (db0 cat c0))) k /\
+                        d_vers (fst (multi_run c runs (db0 cat c0))) k <= m_app m k.
   Proof. apply multi_run_mon. intros k. cbn. lia. Qed.
 
   (* ------------------------------------------------------------ noop_when_current *)
@@ -662,44 +675,51 @@ Section ObsProofs.
   Notation omon_step := (omon_step sids).
   Notation len k := (List.length (scripts k)).
 
-  Definition OLink (d : db) (m : omst) : Prop := forall k, d_vers d k <= om_app m k.
+  Definition OLink (d : db) (m : omst) : Prop := forall k, om_rec m k <= d_vers d k /\ d_vers d k <= om_app m k.
 
   Lemma omon_run_app m l1 l2 :
     omon_run m (l1 ++ l2) = match omon_run m l1 with Some a => omon_run a l2 | None => None end.
   Proof. revert m; induction l1 as [|e l1 IH]; intros m; cbn; [reflexivity|]. destruct (omon_step m e); auto. Qed.
 
-  Lemma existsb_nth_firstn : forall (l : list N) v a, v < a -> v < List.length l ->
-    existsb (N.eqb (nth v l 0%N)) (firstn a l) = true.
+  Lemma existsb_nth_skipn_firstn : forall (l : list N) r v a, r <= v -> v < a -> v < List.length l ->
+    existsb (N.eqb (nth v l 0%N)) (skipn r (firstn a l)) = true.
   Proof.
-    induction l as [|x l IH]; intros v a Hva Hvl; cbn in Hvl; [lia|].
-    destruct a as [|a]; [lia|]. destruct v as [|v]; cbn.
-    - now rewrite N.eqb_refl.
-    - rewrite (IH v a); [apply orb_true_r|lia|lia].
+    induction l as [|x l IH]; intros r v a Hrv Hva Hvl; cbn in Hvl; [lia|].
+    destruct a as [|a]; [lia|]. destruct v as [|v].
+    - assert (r = 0) by lia. subst r. cbn. now rewrite N.eqb_refl.
+    - destruct r as [|r]; cbn [firstn skipn nth].
+      + cbn [existsb]. pose proof (IH 0 v a ltac:(lia) ltac:(lia) ltac:(lia)) as H0. cbn [skipn] in H0.
+        rewrite H0. apply orb_true_r.
+      + apply IH; lia.
   Qed.
 
-  (* a script event of stream k at index v, in a state whose applied count is at least v *)
-  Lemma omon_script k v r (m : omst) : om_cur m = Some k -> v <= om_app m k -> v < len k ->
-    exists m', omon_step m (OScript (sid_at sids k v) r) = Some m' /\ om_cur m' = Some k /\
+  (* a script event of stream k at index v, in a state where v is not recorded yet and at most applied *)
+  Lemma omon_script k v r (m : omst) : om_cur m = Some k -> om_rec m k <= v -> v <= om_app m k -> v < len k ->
+    exists m', omon_step m (OScript (sid_at sids k v) r) = Some m' /\ om_cur m' = Some k /\ om_rec m' = om_rec m /\
                (forall k', om_app m k' <= om_app m' k') /\ (res_applied r = true -> S v <= om_app m' k).
   Proof.
-    intros Hcur Hle Hlt. cbn [Migrate.omon_step]. destruct (res_applied r) eqn:A.
-    2:{ exists m. split; [reflexivity|]. split; [exact Hcur|]. split; [auto|discriminate]. }
+    intros Hcur Hrec Hle Hlt. cbn [Migrate.omon_step]. destruct (res_applied r) eqn:A.
+    2:{ exists m. split; [reflexivity|]. split; [exact Hcur|]. split; [reflexivity|]. split; [auto|discriminate]. }
     rewrite Hcur. rewrite <- sids_len in Hlt.
     assert (Hnz : N.eqb (sid_at sids k v) 0 = false) by (apply N.eqb_neq, sids_nonzero, Hlt).
     rewrite Hnz. cbn [negb]. rewrite !andb_true_r.
     destruct ((om_app m k <? List.length (sids k)) && N.eqb (sid_at sids k (om_app m k)) (sid_at sids k v)) eqn:B.
-    - eexists. split; [reflexivity|]. cbn [om_cur om_app]. split; [reflexivity|]. split.
+    - eexists. split; [reflexivity|]. cbn [om_cur om_app om_rec]. split; [reflexivity|]. split; [reflexivity|]. split.
       + intros k'. destruct (stream_eqb k' k) eqn:E; [apply stream_eqb_eq in E; subst; lia|lia].
       + intros _. rewrite stream_eqb_refl. lia.
     - assert (Hgt : v < om_app m k).
       { destruct (Nat.eq_dec v (om_app m k)) as [He|Hne]; [|lia]. exfalso. rewrite <- He in B.
         rewrite N.eqb_refl, andb_true_r in B. apply Nat.ltb_ge in B. lia. }
-      unfold sid_at at 1. rewrite (existsb_nth_firstn _ _ _ Hgt Hlt).
-      exists m. split; [reflexivity|]. split; [exact Hcur|]. split; [auto|intros _; lia].
+      unfold sid_at at 1. rewrite (existsb_nth_skipn_firstn _ _ _ _ Hrec Hgt Hlt).
+      exists m. split; [reflexivity|]. split; [exact Hcur|]. split; [reflexivity|]. split; [auto|intros _; lia].
   Qed.
 
+  Definition obump_rec (m : omst) (k : stream) (v : nat) : omst :=
+    {| om_cur := om_cur m; om_app := om_app m;
+       om_rec := fun k' => if stream_eqb k' k then Nat.max (om_rec m k') v else om_rec m k' |}.
+
   Lemma omon_insver k v r (m : omst) : v <= om_app m k ->
-    omon_step m (OInsVer (stream_k k) (N.of_nat v) r) = Some m.
+    omon_step m (OInsVer (stream_k k) (N.of_nat v) r) = Some (if res_applied r then obump_rec m k v else m).
   Proof.
     intros H. cbn [Migrate.omon_step]. rewrite stream_of_k_k, Nat2N.id.
     apply Nat.leb_le in H. rewrite H. destruct (res_applied r); reflexivity.
@@ -716,44 +736,54 @@ Section ObsProofs.
       assert (Hlt : d_vers d k < len k) by (apply nth_error_Some; congruence).
       cbn [Migrate.loop].
       destruct (do_call cat (o_hd os) (eff_script cat stmt exec x) d) as [d1 r1] eqn:E1.
-      destruct (omon_script k (d_vers d k) r1 m Hcur (HL k) Hlt) as (m1 & Hs1 & Hcur1 & Hmono & Happ).
+      destruct (HL k) as [Hrec Hle].
+      destruct (omon_script k (d_vers d k) r1 m Hcur Hrec Hle Hlt) as (m1 & Hs1 & Hcur1 & Hrec1 & Hmono & Happ).
       assert (Hv1 : d_vers d1 = d_vers d).
       { destruct (do_call_inv _ _ _ _ _ _ E1) as [[_ He]|[[_ He]|[_ ->]]]; [| |reflexivity];
           apply eff_script_inv in He; destruct He as (c' & _ & _ & Hv & _); exact Hv. }
-      assert (HL1 : OLink d1 m1) by (intros k'; rewrite Hv1; specialize (HL k'); specialize (Hmono k'); lia).
+      assert (HL1 : OLink d1 m1).
+      { intros k'. rewrite Hv1, Hrec1. destruct (HL k') as [Ha Hb]. specialize (Hmono k'). lia. }
       destruct (res_ok r1) eqn:R1.
       + specialize (Happ (res_ok_applied _ R1)).
         destruct (do_call cat (o_hd (tl os)) (eff_setver cat k (S (d_vers d k))) d1) as [d2 r2] eqn:E2.
-        assert (HL2 : OLink d2 m1).
-        { destruct (do_call_inv _ _ _ _ _ _ E2) as [[_ He]|[[_ He]|[_ ->]]]; [| |exact HL1];
-            apply eff_setver_inv in He; destruct He as (_ & _ & _ & Hk & Hoth);
-            intros k'; (destruct (stream_eqb k' k) eqn:Ek;
-              [apply stream_eqb_eq in Ek; subst k'; rewrite Hk, Hv1; specialize (HL1 k); rewrite Hv1 in HL1; lia
-              |rewrite Hoth; [apply HL1|intros ->; rewrite stream_eqb_refl in Ek; discriminate]]). }
+        set (m2 := if res_applied r2 then obump_rec m1 k (S (d_vers d k)) else m1).
+        assert (Hcur2 : om_cur m2 = Some k) by (unfold m2, obump_rec; destruct (res_applied r2); exact Hcur1).
+        assert (HL2 : OLink d2 m2 /\ (res_ok r2 = true -> d_vers d2 k = S (d_vers d k))).
+        { assert (Hap : forall d', eff_setver cat k (S (d_vers d k)) d1 = Some d' ->
+                         OLink d' (obump_rec m1 k (S (d_vers d k))) /\ d_vers d' k = S (d_vers d k)).
+          { intros d' He. apply eff_setver_inv in He. destruct He as (_ & _ & _ & Hk & Hoth).
+            assert (Hk' : d_vers d' k = S (d_vers d k)) by (rewrite Hk, Hv1; lia).
+            split; [|exact Hk']. intros k'. unfold obump_rec. cbn [om_app om_rec].
+            destruct (stream_eqb k' k) eqn:Ek.
+            - apply stream_eqb_eq in Ek. subst k'. rewrite Hk', Hrec1. lia.
+            - rewrite Hoth; [apply HL1|intros ->; rewrite stream_eqb_refl in Ek; discriminate]. }
+          unfold m2. destruct (do_call_inv _ _ _ _ _ _ E2) as [[-> He]|[[-> He]|[Hn' ->]]]; cbn [res_applied res_ok].
+          - destruct (Hap _ He). auto.
+          - destruct (Hap _ He). split; [assumption|discriminate].
+          - rewrite Hn'. split; [exact HL1|]. intros Hok. rewrite (res_ok_applied _ Hok) in Hn'. discriminate. }
+        destruct HL2 as [HL2 Hd2k].
         destruct (res_ok r2) eqn:R2.
-        * assert (Hd2k : d_vers d2 k = S (d_vers d k)).
-          { destruct (do_call_inv _ _ _ _ _ _ E2) as [[_ He]|[[-> _]|[Hn' _]]]; [|discriminate|].
-            - apply eff_setver_inv in He. destruct He as (_ & _ & _ & Hk & _). rewrite Hk, Hv1. lia.
-            - rewrite (res_ok_applied _ R2) in Hn'. discriminate. }
+        * specialize (Hd2k eq_refl).
           assert (Hn2 : n + d_vers d2 k = len k) by lia.
-          destruct (IH (tl (tl os)) d2 m1 Hn2 Hcur1 HL2) as (m' & Hm & HL'). rewrite Hd2k in Hm, HL'.
-          cbn [r_log r_db map abs_event Migrate.omon_run]. rewrite Hs1, (omon_insver _ _ _ _ Happ). eauto.
-        * cbn [r_log r_db map abs_event Migrate.omon_run]. rewrite Hs1, (omon_insver _ _ _ _ Happ). eauto.
+          destruct (IH (tl (tl os)) d2 m2 Hn2 Hcur2 HL2) as (m' & Hm & HL'). rewrite Hd2k in Hm, HL'.
+          cbn [r_log r_db map abs_event Migrate.omon_run]. rewrite Hs1, (omon_insver _ _ _ _ Happ). fold m2. eauto.
+        * cbn [r_log r_db map abs_event Migrate.omon_run]. rewrite Hs1, (omon_insver _ _ _ _ Happ). fold m2. eauto.
       + cbn [r_log r_db map abs_event Migrate.omon_run]. rewrite Hs1. eauto.
   Qed.
 
   Lemma prelude_omon c k os (d : db) m :
     let p := prelude cat c k os d in
-    exists m', omon_run m (absl (r_log p)) = Some m' /\ om_app m' = om_app m /\ (r_ok p = true -> om_cur m' = Some k).
+    exists m', omon_run m (absl (r_log p)) = Some m' /\ om_app m' = om_app m /\ om_rec m' = om_rec m /\
+               (r_ok p = true -> om_cur m' = Some k).
   Proof.
     unfold Migrate.prelude.
     destruct (do_call cat (o_hd os) (eff_create_ver cat) d) as [d1 r1].
     destruct (res_ok r1); cbn [negb].
-    2:{ cbn. eexists. split; [reflexivity|]. split; [reflexivity|discriminate]. }
+    2:{ cbn. eexists. split; [reflexivity|]. split; [reflexivity|]. split; [reflexivity|discriminate]. }
     destruct (clustered c).
     - destruct (do_call cat (o_hd (tl os)) (eff_create_vd cat) d1) as [d2 r2].
       destruct (res_ok r2); cbn [negb].
-      2:{ cbn. eexists. split; [reflexivity|]. split; [reflexivity|discriminate]. }
+      2:{ cbn. eexists. split; [reflexivity|]. split; [reflexivity|]. split; [reflexivity|discriminate]. }
       destruct (do_call cat (o_hd (tl (tl os))) (eff_read cat c) d2) as [d3 r3].
       cbn [negb r_log r_ok map app abs_event Migrate.omon_run Migrate.omon_step]. rewrite stream_of_k_k.
       eexists. split; [reflexivity|]. cbn. auto.
@@ -768,9 +798,9 @@ Section ObsProofs.
   Proof.
     intros HL. unfold Migrate.us.
     destruct (prelude_props cat c k os d) as (_ & Hv & _ & _ & _ & _).
-    destruct (prelude_omon c k os d m) as (m1 & Hm1 & Happ1 & Hcur1).
+    destruct (prelude_omon c k os d m) as (m1 & Hm1 & Happ1 & Hrec1 & Hcur1).
     set (p := prelude cat c k os d) in *.
-    assert (HLp : OLink (r_db p) m1) by (intros k'; rewrite Hv, Happ1; apply HL).
+    assert (HLp : OLink (r_db p) m1) by (intros k'; rewrite Hv, Happ1, Hrec1; apply HL).
     destruct (r_ok p) eqn:Hok.
     - cbn [r_log r_db]. rewrite map_app, omon_run_app, Hm1.
       destruct (le_lt_dec (len k) (d_vers (r_db p) k)) as [Hge|Hlt].
@@ -810,7 +840,7 @@ Section ObsProofs.
     omon_ok sids (absl (snd (multi_run cat stmt exec scripts c runs (db0 cat c0)))) = true.
   Proof.
     unfold omon_ok.
-    destruct (multi_run_omon c runs (db0 cat c0) {| om_cur := None; om_app := fun _ => 0 |}) as (m' & Hm & _).
+    destruct (multi_run_omon c runs (db0 cat c0) {| om_cur := None; om_app := fun _ => 0; om_rec := fun _ => 0 |}) as (m' & Hm & _).
     - intros k. cbn. lia.
     - now rewrite Hm.
   Qed.
